@@ -85,6 +85,7 @@ type Data struct {
 	Vars  map[string]Val                 `json:"vars,omitempty"`
 	Lists map[string][]map[string]string `json:"lists,omitempty"`
 	Imgs  map[string]gen.Img             `json:"imgs,omitempty"`
+	Conds map[string]bool                `json:"conds,omitempty"`
 }
 
 type Case struct {
@@ -127,6 +128,9 @@ func (c *Case) templateData() *document.TemplateData {
 	}
 	for k, im := range c.Data.Imgs {
 		td.SetImageFromData(k, im.Bytes(), nil)
+	}
+	for k, v := range c.Data.Conds {
+		td.SetCondition(k, v)
 	}
 	return td
 }
@@ -275,7 +279,7 @@ func buildTable(doc *document.Document, parent *document.Table, pr, pc int, ts *
 							if err := t.AddCellFormattedText(r, c, rn.T, rn.F.TF()); err != nil {
 								return err
 							}
-						} else if err := addRuns(doc, p, []Run{rn}, false); err != nil {
+						} else if err := addRuns(doc, p, []Run{rn}, true); err != nil {
 							return err
 						}
 					}
@@ -285,7 +289,7 @@ func buildTable(doc *document.Document, parent *document.Table, pr, pc int, ts *
 						return err
 					}
 					// AddCellParagraph returns a pointer into the cell's slice: valid until the next append
-					if err := addRuns(doc, np, ps.Runs, false); err != nil {
+					if err := addRuns(doc, np, ps.Runs, true); err != nil {
 						return err
 					}
 					p = np
